@@ -13,3 +13,43 @@ PROPERTIES.update({
             "text": "placeholder",
             "note": "placeholder"},
 })
+
+D = "decode::verif_k::"
+RES_CONTRACT = ("decode::read_residuals: requires stream == RFC 9639 9.2.7 coding (method, partition order, per-partition Rice/escape/zero "
+                "kind and parameter) of valid 32-bit residuals r; ensures Ok, residuals == r, exactly the coding consumed, field grammar as RFC")
+for h, tier in [("k_res_valid_i32_n4_o0_m0_p1_RR", "quick"), ("k_res_valid_i32_n4_o0_m1_p2_RERZ", "quick"),
+                ("k_res_valid_i32_n3_o1_m0_p1_ER", "quick"), ("k_res_valid_i32_n3_o2_m1_p0_R", "quick"),
+                ("k_res_valid_i64_n3_o1_m1_p1_RE", "quick"), ("k_res_valid_i32_n2_o0_m0_p1_ZR", "quick"),
+                ("k_res_valid_i32_n1_o0_m1_p0_E", "quick")]:
+    add("K-" + h[2:], ["C03", "C01"], D + h, tier=tier, bound="block <= 4 samples, one instance per (count, order, method, partition order, partition kinds); all residual values and parameters",
+        functions=["decode::read_residuals", "decode::read_residuals::read_block", "stream::ResidualPartitionHeader::from_reader"],
+        contract=RES_CONTRACT, timeout=300)
+for h, tier in [("k_res_total_i32_n1", "quick"), ("k_res_total_i32_n2", "quick"), ("k_res_total_i64_n2", "thorough"), ("k_res_total_i32_n3", "thorough")]:
+    add("K-" + h[2:], ["C04", "C05"], D + h, tier=tier, bound="<= 3 residuals, predictor order <= 3; every field value, every read fault",
+        functions=["decode::read_residuals", "decode::read_residuals::read_block"],
+        contract="decode::read_residuals: for every field sequence and read fault: no panic; read fault => Err; coding method 2/3 => Err; "
+                 "partition order with block % 2^po != 0 or (block >> po) <= order => Err", timeout=900)
+PRED_CONTRACT = ("decode::predict: requires channel == warm_up ++ RFC residuals of x (x[i] - ((sum_j x[i-1-j]*c[j]) >> shift)), residuals valid; "
+                 "ensures channel == x  (coefficients concrete per instance, samples and shift symbolic)")
+for h, tier in [("k_predict_valid_i32_fixed1", "quick"), ("k_predict_valid_i32_fixed2", "quick"), ("k_predict_valid_i32_fixed3", "thorough"),
+                ("k_predict_valid_i32_fixed4", "thorough"), ("k_predict_valid_i64_fixed2", "quick"), ("k_predict_valid_i32_lpc_a", "quick"),
+                ("k_predict_valid_i32_lpc_b", "thorough"), ("k_predict_valid_i64_lpc_a", "thorough")]:
+    add("K-" + h[2:], ["C03", "C01"], D + h, tier=tier, bound="block <= 6 samples; coefficient vector fixed per instance (all four FIXED predictors; three LPC vectors incl. 15-bit extremes)",
+        functions=["decode::predict"], contract=PRED_CONTRACT, timeout=600)
+for h in ["k_predict_total_i32_n4_o2", "k_predict_total_i64_n4_o2", "k_predict_total_i32_n3_o0"]:
+    add("K-" + h[2:], ["C04"], D + h, tier="quick", bound="block <= 4, order <= 2; all sample, coefficient (15-bit) and shift values",
+        functions=["decode::predict"], contract="decode::predict: never panics (no overflow) for arbitrary channel contents, 15-bit coefficients, shift <= 31", timeout=300)
+SUB_CONTRACT = ("decode::read_subframe: requires stream == RFC 9639 9.2 coding of samples x (CONSTANT/VERBATIM/FIXED/LPC, wasted bits k); "
+                "ensures Ok, channel[i] == x[i] << k, exactly the subframe consumed, field grammar as RFC")
+for h in ["k_sub_valid_constant_w0", "k_sub_valid_constant_w", "k_sub_valid_verbatim_w0", "k_sub_valid_verbatim_w", "k_sub_valid_verbatim33",
+          "k_sub_valid_fixed0", "k_sub_valid_fixed1_w", "k_sub_valid_lpc1"]:
+    add("K-" + h[2:], ["C03", "C01"], D + h, tier="quick", bound="block <= 3 samples; bits-per-sample 1..32 (33 for the wide instance), wasted bits, all sample values",
+        functions=["decode::read_subframe", "decode::read_fixed_subframe", "decode::read_lpc_subframe", "decode::read_residuals", "decode::predict",
+                   "stream::SubframeHeader::from_reader", "stream::SubframeHeaderType::from_reader"],
+        contract=SUB_CONTRACT, timeout=600)
+for h, tier in [("k_sub_mod_fixed2", "quick"), ("k_sub_mod_fixed3_w", "quick"), ("k_sub_mod_fixed4", "quick"), ("k_sub_mod_fixed2_33", "quick"),
+                ("k_sub_mod_lpc2_w", "thorough"), ("k_sub_mod_lpc3", "thorough"), ("k_sub_mod_lpc3_33", "thorough")]:
+    add("K-" + h[2:], ["C03", "C01"], D + h, tier=tier, bound="block <= 6 samples, predictor order 2..4, coefficient vector fixed per instance",
+        functions=["decode::read_subframe", "decode::read_fixed_subframe", "decode::read_lpc_subframe", "decode::predict"],
+        contract=SUB_CONTRACT + "; callee read_residuals replaced by its contract (called once with the right order and slice; delivers the coded residuals or an error, which must propagate)",
+        stubs=["decode::read_residuals (contract discharged by K-res_valid_* / K-res_total_*)"], timeout=900)
